@@ -43,6 +43,8 @@ ROWS = [
  ("C18", "write/stale-override-when-new-value-is-default", "fixed", "ofxget --write left a stale setting", "--version 102 -w; --version 203 -w; next run used 102"),
  ("C19", "all/no-active-bank-or-invest-account", "fixed", "'ofxget stmt --all' died", "stmt --all raised ValueError('{label} is empty') when all bank (or investment) accounts are inactive"),
  ("C04", "list-member-on-class-without-lists/kwargs", "fixed", "aggregates that declare no repeated elements", "any str positional argument was admitted as a list member by classes that declare no repeated element (294 classes); the instance then violates 'permitted list member types'"),
+ ("C11", "to_etree/DateTime/not YYYYMMDDHHMMSS.XXX[offset:name]", "fixed", "date-times before year 1000", "years 1..999 written with fewer than four digits (strftime %Y), e.g. 9990101000000.000[+0:UTC]"),
+ ("C11", "to_etree/Integer/not [+-]digits", "fixed", "a bool stored in an Integer element", "Integer element holding a bool written as 'True'/'False'"),
  ("C15", "wrong-server/same-org-fid-different-url", "fixed", "FI profile cached from one server", "cache keyed by ORG-FID only: client of another URL sent A's DTPROFUP and used A's profile"),
 ]
 out = {"_comment": "Genuine defects of csingley/ofxtools found by the /verif checks. status=fixed: repaired by the named 'fix:' commit in /repo; suppresses nothing. status=known: recorded, reported as KNOWN-FINDING and not failed. Keys are mechanism signatures computed by the check's classifier, never case hashes. Never written at run time.",
